@@ -261,8 +261,8 @@ def r11_generic(db, ctx):
         for c_ in CA.extents.get(Lr, []):
             if c_[0] == 'len':
                 rows_param = c_[1]
-            elif c_[0] == 'sub' and c_[2] == ('k', 0) and c_[1][0] == 'call' and c_[1][1].endswith('::len') and len(c_[1][2]) == 1:
-                rows_param = norm(c_[1][2][0])
+            elif c_[0] == 'sub' and c_[2] == ('k', 0) and common.range_of_len(f, c_[1]) is not None:
+                rows_param = common.range_of_len(f, c_[1])      # 0..rows.len()  or  0..(rows.end - rows.start)
         start_ok = rows_param is not None and rest == X.lin(('fld', rows_param, 'start'))
         if not (l.get(pr) == 1 and l.get(pj) == 1 and start_ok):
             probs.append(f'sequence row is {X.show(bv["$row"], 120)}: expected (element of rows) + j')
@@ -328,7 +328,8 @@ def r13(db, ctx):
             probs.append(f'expected one resize(0, 0) and one full resize, found {len(rs)} resize calls')
         else:
             bi, t, a1, a2 = full
-            is_rows_len = a1[0] == 'call' and a1[1].endswith('len') and len(a1[2]) == 1 and a1[2][0][0] == 'p' and 'Range<usize>' in f.local_ty(a1[2][0][1])
+            rng = common.range_of_len(f, a1)
+            is_rows_len = rng is not None and rng[0] == 'p'
             if not is_rows_len:
                 probs.append(f'row count is {X.show(a1, 60)}, expected rows.len()')
             # second: saturating_sub(len(seq)+1, rows(pssm))  or  len - M + 1
@@ -346,7 +347,7 @@ def r13(db, ctx):
                 probs.append(f'number of valid positions is {X.show(a2, 100)}, expected seq.len() + 1 - pssm.rows()')
             rels = G.relations(f, R, bi)
             strength, gr = common.length_guard_strength(rels)
-            g2 = any(r[0] == 'false' and 'is_empty' in X.canon(r[1]) for r in rels)
+            g2 = common.range_nonempty(rels, rng)
             if strength == 'stronger':
                 probs.append(f'the early exit also takes sequences with len(seq) == rows(pssm) (guard {gr[0]}({X.show(norm(gr[1]), 60)}, {X.show(norm(gr[2]), 40)}) is stronger than '
                              'len >= rows): the single window of a sequence as long as the motif gets no score')
@@ -484,7 +485,10 @@ def r15(db, ctx):
             cons = sw[0][2]
             callee_owner = c.split('::')[-2] if c.startswith('lightmotif::pli::platform::') else 'trait:' + c.rsplit('::', 2)[-2]
             meth = c.rsplit('::', 1)[-1]
-            if cons[0] == 'eq':
+            full_ = t.get('callee_full') or t.get('resolved_full') or ''
+            if cons[0] == 'eq' and meth == op and 'Generic' in full_ and not c.startswith('lightmotif::pli::platform::'):
+                pass        # an explicit arm that uses the generic implementation: what the fallback arm does for that variant
+            elif cons[0] == 'eq':
                 v = vnames.get(cons[1], '?')
                 if callee_owner != v:
                     ctx.fail('R1.5', f, f'{op}: arm {v}', f'arm for Dispatch::{v} calls {c}', span=t['span'])
